@@ -8,7 +8,7 @@ git -C $wt checkout -q -- . && git -C $wt apply $patch || { echo "APPLY FAILED";
 for p in "$@"; do
   out=$(/verif/bin/mpbcheck -repo $wt -verif $scratch $p 2>&1); rc=$?
   echo "== $p rc=$rc"
-  echo "$out" | grep -E '^(VIOLATED|UNDECIDED|UNRESOLVED|BROKEN|KNOWN)' | cut -c1-400
+  echo "$out" | grep -E "^(VIOLATED|UNDECIDED|UNRESOLVED|BROKEN)" | cut -c1-400
 done
 git -C $wt checkout -q -- .
 rm -rf $scratch
